@@ -60,6 +60,9 @@ W = {
                               prog([Q, cond(cmp_("And", P("q", "count"), P("q", "flag")))]), ("span_stmt", 0, (1,))),
     "D20-string-equality": ("D20-string-equality-rejected", ["C11"], {"C11": "C11"},
                             prog([Q, cond(cmp_("==", P("q", "label"), ("str", "a")))]), ("span_stmt", 0, (1,))),
+    "D20-parenthesised-string-operand": ("D20-string-equality-rejected", ["C11"], {"C11": "C11"},
+                                         prog([Q, cond(cmp_("<", ("paren", ("str", "a")), ("str", "b")))]),
+                                         ("span_stmt", 0, (1,))),
     "D21-array-length-by-name": ("D21-array-length-error-without-line", ["C19"], {"C19": "C19"},
                                  prog([svc()], structs=faults.SUPPORT_STRUCTS + [
                                      {"name": "Fnew", "attrs": [("a", faults.NUM), ("zz", ("array", "number", "k"))]}]),
@@ -162,7 +165,7 @@ def write_coq():
         out.append("Definition w_%s : program :=\n  %s.\n" % (name.replace("-", "_"), pfdl_ast.coq_program(I, p)))
     for name, p in EXTRA_COQ.items():
         out.append("Definition w_%s : program :=\n  %s.\n" % (name, pfdl_ast.coq_program(I, p)))
-    out.append("(* interned names: " + ", ".join("%d=%s" % (i, s.replace("*)", "* )")) for i, s in enumerate(I.rev)) + " *)")
+    out.append("(* interned names: " + ", ".join("%d=%s" % (i, s.replace("*)", "* )").replace('"', "'")) for i, s in enumerate(I.rev)) + " *)")
     path = os.path.join(os.path.dirname(HERE), "coq", "Check", "Witnesses.v")
     text = "\n".join(out) + "\n"
     if not os.path.exists(path) or open(path).read() != text:
